@@ -27,6 +27,7 @@ SPEC = {
                    "PyMatterSim.static.gr:gr.getresults", "PyMatterSim.static.sq:sq.getresults", "PyMatterSim.static.boo:boo_2d.lthorder",
                    "PyMatterSim.static.boo:boo_3d.ql_Ql", "PyMatterSim.dynamic.dynamics:Dynamics.relaxation",
                    "PyMatterSim.utils.coarse_graining:gaussian_blurring", "PyMatterSim.static.vector:vector_decomposition_sq"],
+    "floors_thorough": {"purity_repo_tests": 200},
     "floors": {"purity": 20000, "repeat": 300, "files": 400, "instance_reuse": 30, "instance_history": 30, "fresh_process_replay": 40},
     "insitu": (),
     "rule": ("random programs (12-20 steps, a third of them repeats of an earlier step) over ~60 public entry points of static / "
@@ -1074,8 +1075,55 @@ def _child(key):
     print("DIGESTS " + json.dumps(out))
 
 
+def repo_tests_under_monitors(ctx, tdir):
+    """thorough tier: one directory of the repository's own tests is run as a WORKLOAD (real file sizes) with the purity monitor and
+    the in-situ contracts on (vmon/pytest_plugin.py); what the monitors saw is merged into this check."""
+    import json
+    import shutil
+    import subprocess
+    import sys
+    import tempfile
+    from .. import DEPS, REPO, VERIF_DIR
+    if not os.path.isdir(os.path.join(REPO, "tests", tdir)):
+        ctx.note(f"repository tests/{tdir} not found")
+        return
+    wd = tempfile.mkdtemp(prefix="vmon_c18_tests_")
+    try:
+        os.symlink(os.path.join(REPO, "tests"), os.path.join(wd, "tests"))        # the tests read tests/sample_test_data relative to the cwd
+        os.symlink(os.path.join(REPO, "PyMatterSim"), os.path.join(wd, "PyMatterSim"))
+        out = os.path.join(wd, "plugin.json")
+        env = dict(os.environ, VMON_PLUGIN_OUT=out, PYTHONPATH=os.pathsep.join([wd, VERIF_DIR, DEPS]), PYTHONHASHSEED="0", PYTHONDONTWRITEBYTECODE="1")
+        try:
+            subprocess.run([sys.executable, "-m", "pytest", "-q", "-p", "no:cacheprovider", "-p", "vmon.pytest_plugin", "--timeout=900",
+                            "--continue-on-collection-errors", f"tests/{tdir}"], cwd=wd, env=env, capture_output=True, text=True, timeout=2400)
+        except subprocess.TimeoutExpired:
+            ctx.note(f"repository tests/{tdir} under monitors: watchdog")
+            return
+        if not os.path.exists(out):
+            ctx.note(f"repository tests/{tdir} under monitors: no plug-in report")
+            return
+        with open(out) as f:
+            rep = json.load(f)
+        ctx.mon("purity_repo_tests")["comparisons"] += int(rep["arrays_compared"])
+        ctx.extra.setdefault("repo_tests_under_monitors", {})[tdir] = {"tests": rep["tests"], "entry_point_calls": rep["calls"],
+                                                                      "insitu_contract_evaluations": rep["insitu"]}
+        for k, v in rep["insitu"].items():
+            d = ctx.insitu.setdefault(k, {})
+            for site, n in v.items():
+                d["repo-tests:" + site] = d.get("repo-tests:" + site, 0) + n
+        for v in rep["purity_violations"]:
+            ctx.violation(f"{v['entry_point']}/impure:{_array_kind(v['array'])}", f"repository test {v['test']}: {v['entry_point']} modified its input "
+                          f"{v['array']} in place (max change {v['max_change']})", v, "purity_repo_tests")
+        for v in rep["contract_violations"]:
+            ctx.violation(v["key"], "repository tests under contracts: " + v["what"], v.get("data"), "insitu_repo_tests")
+    finally:
+        shutil.rmtree(wd, ignore_errors=True)
+
+
 def run(ctx):
     from ..harness import fresh_dir, drop_dir
+    if ctx.thorough and ctx.shard < 6:
+        repo_tests_under_monitors(ctx, ["static", "dynamics", "neighbors", "utils", "reader", "writer"][ctx.shard])
     wd = fresh_dir("c18")
     R = recipes()
     ctx.extra["entry_point_recipes"] = len(R)
